@@ -71,7 +71,19 @@ static void fill_logic()
         BB<T> q = BB<T>::load_unaligned(tmp2);
         stb<T>(a, q); });
     // variadic bool constructor of batch_bool is covered in C04 (constructor order); broadcast ctor here
-    reg<T>("bb_broadcast", [](const xsv_args* a) { const unsigned char* s = (const unsigned char*)a->in[0]; stb<T>(a, BB<T>(s[0] != 0)); });
+    // lane l of the output is lane l of batch_bool(s[l]): every lane of the broadcast constructor sees both truth values
+    reg<T>("bb_broadcast", [](const xsv_args* a) {
+        const unsigned char* s = (const unsigned char*)a->in[0];
+        unsigned char* o = (unsigned char*)a->out[0];
+        for (size_t l = 0; l < B<T>::size; ++l)
+        {
+            bool tmp[B<T>::size];
+            BB<T>(s[l] != 0).store_unaligned(tmp);
+            unsigned char c;
+            std::memcpy(&c, &tmp[l], 1);
+            o[l] = c;
+        }
+    });
     // batch<T>(batch_bool) -> 0/1
     reg<T>("bb_to_batch", [](const xsv_args* a) { BB<T> p = ldb<T>(a->in[0]); st<T>(a->out[0], B<T>(p)); });
     // select(mask, x, y): in0 = mask bytes, in1 = x, in2 = y
